@@ -144,6 +144,7 @@ class Printer:
         self.files = {}
         self.refs = {}  # param name -> set of contexts in which it is referenced
         self.stack = ["main"]
+        self.coll_dirs = []  # directories of the enclosing (textually assembled) collects: a nested collect is relative to them
 
     def ctx(self):
         if "macro-part" in self.stack:
@@ -198,8 +199,12 @@ class Printer:
                 sep = "" if last else ","
                 if isinstance(it, Coll):
                     self.stack.append("macro-part" if it.macro else "collect-part")
+                    # Rally assembles a collect found inside a collected part relative to the directory of that part
+                    # (TemplateSource.replace_includes recurses with the directory of the glob); {% include %} stays root-relative
+                    self.coll_dirs.append(it.dirname)
                     for j, sub in enumerate(it.items):
-                        self.files["%s/%02d.json" % (it.dirname, j)] = self.emit(sub, 0) + "\n"
+                        self.files["%s/%02d.json" % ("/".join(self.coll_dirs), j)] = self.emit(sub, 0) + "\n"
+                    self.coll_dirs.pop()
                     self.stack.pop()
                     if it.macro:
                         # same helper, but written so that Rally's textual pre-assembly does not apply and the Jinja macro runs
@@ -995,6 +1000,20 @@ def apply_layout(seed, spec, features, level, needs_import=False):
             use_import = use_import or "ctx"
             unordered = len(chs) > 1  # glob order is not a property of the track
             features.add("collect-challenges-macro" if macro else "collect-challenges")
+            if not macro:
+                # a collected challenge may itself collect: one schedule item (glob order does not matter for one file) moves to
+                # a sub-directory *of the challenges directory*
+                new = []
+                for ci, c in enumerate(chs):
+                    sched = c.get("schedule") if isinstance(c, dict) else None
+                    if isinstance(sched, list) and sched and coin("nested:" + str(plain(c)["name"])) < 0.35:
+                        k = int(coin("nested-at:" + str(plain(c)["name"])) * len(sched))
+                        if not isinstance(sched[k], (Cond, Coll)) and not (k == len(sched) - 1 and any(isinstance(x, Cond) for x in sched)):
+                            c = dict(c)
+                            c["schedule"] = sched[:k] + [Coll("sub%d" % ci, [sched[k]])] + sched[k + 1:]
+                            features.add("nested-collect")
+                    new.append(c)
+                spec["challenges"] = [Coll("challenges", new, macro=False)]
         elif r < 0.4:
             new = []
             for c in chs:
